@@ -78,8 +78,54 @@ def canon_operand(v, variant: str, qparam: str | None):
     raise AnalysisError(f'operand outside the analysed subset in {variant} arm: {mireval.show(v)}')
 
 
+JUDGEMENTS = ('e_fresh', 's_fresh', 'positive', 'negative')
+_ALIASES: dict = {}
+_ACTIVE_ALIASES: dict = {}
+
+
+def judgement_aliases(r: 'Rust') -> dict:
+    """{(method, constant): judgement}: a judgement that is a one-line wrapper `self.m(x, CONST)` around a parametrised method
+    (`positive(x) = polarity(x, true)`) makes `m(child, x, CONST)` another spelling of that judgement on the child"""
+    if id(r) in _ALIASES:
+        return _ALIASES[id(r)]
+    out = {}
+    for j in JUDGEMENTS:
+        try:
+            fn = r.fn(f'Pattern::{j}')
+        except AnalysisError:
+            continue
+        calls = []
+        for b in fn.blocks.values():
+            if b.cleanup:
+                continue
+            t = mir.parse_term(b.term)
+            if t.kind == 'call':
+                calls.append(t)
+        if len(calls) == 1 and mireval.cname(calls[0].callee).startswith('Pattern::') and len(calls[0].args) == 3 \
+                and calls[0].args[2].strip() in ('const true', 'const false'):
+            m = mireval.cname(calls[0].callee)
+            if m.split('::')[1] not in JUDGEMENTS:
+                out[(m, calls[0].args[2].strip() == 'const true')] = j
+    _ALIASES[id(r)] = out
+    return out
+
+
+def _fold_bool(v):
+    if isinstance(v, tuple) and v:
+        if v[0] == 'bool':
+            return bool(v[1])
+        if v[0] == 'op' and v[1] == 'Not' and len(v[2]) == 1:
+            x = _fold_bool(v[2][0])
+            return None if x is None else not x
+    return None
+
+
 def canon_atom(atom, variant: str, qparam: str | None, closures=None):
     k = atom[0]
+    if k == 'call' and len(atom) >= 3 and len(atom[2]) == 3 and _fold_bool(atom[2][2]) is not None:
+        for (m, const), j in _ACTIVE_ALIASES.items():
+            if atom[1] == m and const == _fold_bool(atom[2][2]):
+                return ('J', j, canon_operand(atom[2][0], variant, qparam), canon_operand(atom[2][1], variant, qparam))
     if k == 'call' and atom[1].startswith('Pattern::') and atom[1].split('::')[1] in (
             'e_fresh', 's_fresh', 'positive', 'negative'):
         child = canon_operand(atom[2][0], variant, qparam)
@@ -152,6 +198,8 @@ def arms_of(r: Rust, short: str) -> dict[str, list[mireval.Path]]:
 
 
 def judgement_df(r: Rust, short: str, variant: str, paths: list[mireval.Path]) -> DF:
+    _ACTIVE_ALIASES.clear()
+    _ACTIVE_ALIASES.update(judgement_aliases(r))
     fn = r.fn(short)
     q = fn.debug_of.get(fn.params[1][0]) if len(fn.params) > 1 else None
     outcomes = []
